@@ -51,6 +51,16 @@ claimed = {
   text="A fixed import-free program with 386 operation functions (every indexable kind x form x index type, make, conversions, nil dereference in every syntactic position, maps, assertions, division, channels, side-effect ordering) is compiled by the llgo under test at O0/O2/Oz/O2+nogc; rapid draws tuples around the bounds (half in range), nil-ness flags and repeat counts; each execution is compared with native gc execution for panic/no panic, error class, trace points, call order, surviving state, results and runtime.Error-ness. Exploration only.",
   note="Panic texts compared by class; unspecified evaluation orders are not generated; make sizes small or absurd; three nil-dereference findings (no explicit nil checks) listed in known_findings.json.",
   design="§3 C03"),
+ "C10": dict(
+  technique="schedule exploration with a deterministic scheduler (rapid-drawn scripts and scheduling choices) over the lifted channel source, with a history monitor and a reference-model quiescence check",
+  text="z_chan.go from the working tree runs against stand-in pthread mutex/cond primitives whose every operation is a scheduling point; rapid draws thread scripts (send/recv/close/len/select/TrySelect over 1-3 channels of capacity 0-2) and all scheduling decisions incl. which waiter a signal wakes and spurious wake-ups; a monitor checks token conservation, FIFO, buffer bounds, close semantics, no pthread misuse, and that at quiescence no blocked operation is enabled in the Go channel model. Exploration: sampled schedules, with shrinking to minimal script+schedule.",
+  note="Decides the algorithm in z_chan.go as written, not the compiled artefact; schedules sampled not enumerated; one protocol-level finding (select on unbuffered channels) is listed and keyed separately.",
+  design="§3 C10, Appendix A/B"),
+ "C11": dict(
+  technique="schedule exploration with a deterministic scheduler over the lifted semaphore / notify-list source, with counting invariants and a quiescence (lost wake-up) check",
+  text="sema_llgo.go from the working tree runs against stand-in mutex/cond/once/atomics that are scheduling points; rapid draws acquire/release and Cond-shaped ticket/wait/notify scripts for 2-4 threads plus all scheduling decisions; invariants: acquires bounded by initial + releases, Wait returns only when a notification can cover its ticket, nobody stays blocked at quiescence while its wake-up condition holds. Exploration.",
+  note="Fairness/liveness only in safety form; compiled sync/atomic stress programs are not part of this job.",
+  design="§3 C11, Appendix A"),
 }
 not_yet = "check not built yet in this session (see DESIGN.md §3 for the planned generated-input check)"
 
